@@ -136,7 +136,7 @@ for _s in ({'kind': 'a', 'inner': {'t': 'x', 'a': 1}}, {'kind': 'a', 'inner': {'
 
 
 @obligation(pre="0 <= ok <= 3 and 1 <= ik <= 3 and 0 <= tk <= 3 and 0 <= ka <= 2 and (ik != 2 or (tk == 0 and ka == 0)) and not wrap",
-            witnesses=(0, -1), timeout=240)
+            witnesses=(0, -1), timeout=480)
 def body_nested_tagged(ok: int, ik: int, tk: int, ka: int, ia: int, sa: str, extra: bool, wrap: bool) -> int:
     """nested internally tagged unions (tag stripped at two levels): input never modified"""
     v = nest_value(ok, ik, tk, ka, ia, sa, extra, wrap)
